@@ -152,9 +152,10 @@ var v14F32 = []float32{0, math.SmallestNonzeroFloat32, 6.4e-7, 1, math.MaxFloat3
 var v14F32b = []float32{float32(math.Copysign(0, -1)), 1.0 / 65535, -1.5, -math.SmallestNonzeroFloat32, math.MaxFloat32, float32(math.Inf(-1)), math.Float32frombits(0x7fc00001)}
 
 func v14Analysis(thorough bool) []float64 {
-	a := []float64{math.NaN(), math.Inf(1), math.Inf(-1), 0, 1.5, -1234.5678}
+	// -1234.5678 is inexact in float32 and all four of its float32 bytes differ (c4 9a 52 2b)
+	a := []float64{math.NaN(), math.Inf(1), math.Inf(-1), 0, -1234.5678}
 	if thorough {
-		a = append(a, -65535.25, 1e-50)
+		a = append(a, 1.5, -65535.25, 1e-50)
 	}
 	return a
 }
